@@ -41,7 +41,7 @@ def run_variant(path, kind):
                 return (path, False, 'mutant does not compile: ' + b.stderr[-500:])
         env = dict(os.environ, VERIF_REPO=repo, VERIF_OUT=out, VERIF_DIR=VERIF)
         t0 = time.time()
-        r = subprocess.run([os.path.join(VERIF, 'bin', 'gqlcheck'), 'check', props, tier], capture_output=True, text=True, env=env, cwd=VERIF)
+        r = subprocess.run([os.environ.get('VERIF_BIN') or os.path.join(VERIF, 'bin', 'gqlcheck'), 'check', props, tier], capture_output=True, text=True, env=env, cwd=VERIF)
         dt = time.time() - t0
         outp = r.stdout + r.stderr
         if kind == 'mutants':
@@ -58,7 +58,8 @@ def run_variant(path, kind):
         shutil.rmtree(d, ignore_errors=True)
 
 def main():
-    subprocess.check_call([os.path.join(VERIF, 'run.sh'), 'build'])
+    if not os.environ.get('VERIF_BIN'):
+        subprocess.check_call([os.path.join(VERIF, 'run.sh'), 'build'])
     sel = sys.argv[1:]
     jobs = []
     for kind in ('mutants', 'neutral'):
